@@ -177,6 +177,16 @@ func readLine(br *bufio.Reader) ([]byte, error) {
 	return l[:len(l)-2], nil
 }
 
+// wholeValueBuffered: the bytes already read from the connection contain at least one complete value
+func wholeValueBuffered(br *bufio.Reader) bool {
+	b, err := br.Peek(br.Buffered())
+	if err != nil || len(b) == 0 {
+		return false
+	}
+	_, err = wireRead(bufio.NewReaderSize(bytes.NewReader(b), len(b)+16))
+	return err == nil
+}
+
 func wireRead(br *bufio.Reader) (*wv, error) {
 	t, err := br.ReadByte()
 	if err != nil {
@@ -933,7 +943,10 @@ func (nd *simNode) serve(c net.Conn, serial int) {
 			time.Sleep(time.Duration(d) * time.Millisecond)
 		}
 		reply.encode2(bw)
-		if br.Buffered() == 0 {
+		// as Redis: what has been answered goes out before the node waits for more input - also when the input ends in
+		// the middle of a command (otherwise a client that holds back the rest of that command until it has seen
+		// replies and this node would wait for each other)
+		if br.Buffered() == 0 || !wholeValueBuffered(br) {
 			if bw.Flush() != nil {
 				return
 			}
@@ -1278,6 +1291,16 @@ func (sc *simClient) recv(timeout time.Duration) (*wv, error) {
 }
 
 func (sc *simClient) close() { sc.c.Close() }
+
+// recvPatient: a reply that has not come within the deadline (scaled by the machine's load) is waited for three times as long
+// again before it is given up: the properties checked bound no reply time, a hang is what must be told from a stall
+func (sc *simClient) recvPatient(d time.Duration) (*wv, error) {
+	v, err := sc.recv(time.Duration(float64(d) * loadFactor))
+	if ne, ok := err.(net.Error); ok && ne.Timeout() {
+		return sc.recv(3 * time.Duration(float64(d)*loadFactor))
+	}
+	return v, err
+}
 
 // failover: node idx crashes; a replica with the same data takes over its slots under a new address.
 func (cl *simCluster) failover(idx int) *simNode { return cl.replaceNode(idx, false) }
